@@ -6,14 +6,12 @@ package c05
 import (
 	"encoding/base64"
 	"fmt"
-	"os"
 	"regexp"
 	"runtime"
 	"sort"
 	"strings"
 	"sync"
 	"sync/atomic"
-	"time"
 
 	"github.com/a-h/templ"
 	"github.com/a-h/templ/safehtml"
@@ -91,13 +89,31 @@ func verdictSanitiser(p, v string) (cl Clause, evals int) {
 	if pa || pb {
 		return Rule | Declaration, 1
 	}
-	cl = checkEmitted(a, namesFor(p))
+	cl = checkMemo(a, p)
 	evals = 1
 	if b != a {
-		cl |= checkEmitted(b, namesFor(p))
+		cl |= checkMemo(b, p)
 		evals = 2
 	}
 	return cl, evals
+}
+
+// memo: the oracle is a pure function of (emitted text, admissible names), and
+// almost every hostile input is emitted as the same innocuous text per
+// property; those verdicts are looked up instead of recomputed.
+var memo sync.Map
+
+func checkMemo(emitted, p string) Clause {
+	if !strings.HasSuffix(emitted, ":"+innocuousValue+";") {
+		return checkEmitted(emitted, namesFor(p))
+	}
+	k := emitted + "\x00" + strings.ToLower(p)
+	if v, ok := memo.Load(k); ok {
+		return v.(Clause)
+	}
+	cl := checkEmitted(emitted, namesFor(p))
+	memo.Store(k, cl)
+	return cl
 }
 
 // ---- witness reduction
@@ -135,9 +151,24 @@ type witness struct {
 	sink         string
 }
 
+// rank: 0 when every byte of the value is in the enumerated alphabet, so that
+// the smallest witness is one the exhaustive streams are guaranteed to
+// contain (keys do not depend on what the random stream happens to find).
+func rank(v string) int {
+	for i := 0; i < len(v); i++ {
+		if !strings.ContainsRune("; : { } ( ) \" ' \\ / * < > , @ a u r l - \n", rune(v[i])) {
+			return 1
+		}
+	}
+	return 0
+}
+
 func less(a, b witness) bool {
 	if len(a.p)+len(a.v) != len(b.p)+len(b.v) {
 		return len(a.p)+len(a.v) < len(b.p)+len(b.v)
+	}
+	if ra, rb := rank(a.v)+strings.Count(a.v, "\n"), rank(b.v)+strings.Count(b.v, "\n"); ra != rb {
+		return ra < rb
 	}
 	if a.v != b.v {
 		return a.v < b.v
@@ -148,9 +179,32 @@ func less(a, b witness) bool {
 // bag keeps, per (group, class, clause), the smallest reduced witness: one
 // root cause yields one key per clause of the statement it breaks.
 type bag struct {
-	mu  sync.Mutex
-	min map[string]witness
-	raw int64
+	mu    sync.Mutex
+	min   map[string]witness
+	seen  map[string]int
+	raw   int64
+	skips int64
+}
+
+// worth: reduce this raw violation? Always while the bucket is young, and
+// always when the raw input is not longer than the bucket's current minimum
+// (so the global minimum, which the exhaustive streams contain verbatim, is
+// never skipped); a longer raw input can only matter for buckets whose
+// minimum lies beyond the enumerated bounds.
+func (b *bag) worth(group, class string, clause Clause, size int) bool {
+	k := group + "|" + class + "|" + clause.String()
+	b.mu.Lock()
+	defer b.mu.Unlock()
+	if b.seen == nil {
+		b.seen = map[string]int{}
+	}
+	b.seen[k]++
+	cur, ok := b.min[k]
+	if !ok || b.seen[k] <= 64 || size <= len(cur.p)+len(cur.v) {
+		return true
+	}
+	b.skips++
+	return false
 }
 
 func (b *bag) add(w witness) {
@@ -164,9 +218,9 @@ func (b *bag) add(w witness) {
 
 func (w witness) key() string {
 	if w.class == "invalid-name" {
-		return fmt.Sprintf("%s %s %s: name=%s value=%s", w.group, w.class, w.clause, core.Q(w.p), core.Q(w.v))
+		return fmt.Sprintf("%s %s: name=%s value=%s", w.group, w.class, core.Q(w.p), core.Q(w.v))
 	}
-	return fmt.Sprintf("%s %s %s: %s", w.group, w.class, w.clause, core.Q(w.v))
+	return fmt.Sprintf("%s %s: %s", w.group, w.class, core.Q(w.v))
 }
 
 // recordSanitiser reduces a violating (p, v) once per broken clause.
@@ -174,10 +228,15 @@ func recordSanitiser(b *bag, p, v string, cl Clause) {
 	atomic.AddInt64(&b.raw, 1)
 	class := classOf(p)
 	for bit := Clause(1); bit <= HTML; bit <<= 1 {
-		if cl&bit == 0 {
+		if cl&bit == 0 || !b.worth("sanitiser", class, bit, len(p)+len(v)) {
 			continue
 		}
 		mp := p
+		if lp := strings.ToLower(p); class != "invalid-name" && lp != p {
+			if c2, _ := verdictSanitiser(lp, v); c2&bit != 0 {
+				mp = lp // canonical spelling of the class
+			}
+		}
 		if class == "invalid-name" {
 			mp = shrinkStr(p, func(t string) bool {
 				c, _ := verdictSanitiser(t, v)
@@ -353,7 +412,6 @@ func sweep(c *core.Ctx, b *bag, props []string, streams []stream, hashed bool) {
 	}
 	counts := make([]int64, len(streams))
 	var evals, nt int64
-	tS := time.Now()
 	parallel(len(jobs), func(i int) {
 		j := jobs[i]
 		var n, e, t int64
@@ -381,7 +439,6 @@ func sweep(c *core.Ctx, b *bag, props []string, streams []stream, hashed bool) {
 	})
 	c.Eval(int(evals))
 	c.NontrivialN(int(nt))
-	fmt.Fprintln(os.Stderr, "sweep", len(props), streams[0].name, time.Since(tS), "raw", b.raw)
 	for si, st := range streams {
 		c.Add("values:"+st.name, int(counts[si])*len(props))
 	}
@@ -405,8 +462,16 @@ func inProc(c *core.Ctx, b *bag) {
 		L, len(alphabet), strings.Join(alphabet, ""), L))
 }
 
-// report turns the bag into violations (deterministic order).
+// report turns the bag into violations, deterministically. One violation per
+// (group, property class): the key is the smallest reduced witness of the
+// class; the summary lists, per clause of the statement that the class can
+// break, the smallest witness found for that clause.
 func report(c *core.Ctx, b *bag) {
+	type cls struct {
+		best witness
+		per  []witness
+	}
+	groups := map[string]*cls{}
 	var ks []string
 	for k := range b.min {
 		ks = append(ks, k)
@@ -414,13 +479,36 @@ func report(c *core.Ctx, b *bag) {
 	sort.Strings(ks)
 	for _, k := range ks {
 		w := b.min[k]
+		gk := w.group + "|" + w.class
+		g, ok := groups[gk]
+		if !ok {
+			g = &cls{best: w}
+			groups[gk] = g
+		} else if less(w, g.best) {
+			g.best = w
+		}
+		g.per = append(g.per, w)
+	}
+	var gks []string
+	for k := range groups {
+		gks = append(gks, k)
+	}
+	sort.Strings(gks)
+	for _, gk := range gks {
+		g := groups[gk]
+		w := g.best
 		var what string
 		if w.group == "sanitiser" {
 			a, _ := emitSafehtml(w.p, w.v)
-			what = fmt.Sprintf("SanitizeCSS(%q, %q) emits %q, which %s when placed in `.x{a:b;…c:d}.canary{color:green}` (expected: at most the one declaration %q, or the innocuous name/value)",
-				w.p, w.v, a, explain(w.clause), strings.ToLower(w.p))
+			cl, _ := verdictSanitiser(w.p, w.v)
+			what = fmt.Sprintf("SanitizeCSS(%q, %q) emits %q, which %s when placed in `.x{a:b;…c:d}.canary{color:green}` (expected: at most the one declaration %q, or the innocuous name/value).",
+				w.p, w.v, a, explain(cl), strings.ToLower(w.p))
 		} else {
-			what = fmt.Sprintf("sink %s, property %q, value %q: the rendered CSS %s although the sanitiser's own output for this pair is clean (the rendering path damages it)", w.sink, w.p, w.v, explain(w.clause))
+			what = fmt.Sprintf("sink %s, property %q, value %q: the rendered CSS %s although the sanitiser's own output for this pair is clean (the rendering path damages it).", w.sink, w.p, w.v, explain(w.clause))
+		}
+		what += " Clauses of the statement this class breaks, with the smallest witness for each:"
+		for _, x := range g.per {
+			what += fmt.Sprintf(" %s %q;", x.clause, x.v)
 		}
 		kind := "sanitiser"
 		if w.group != "sanitiser" {
@@ -451,7 +539,16 @@ func explain(cl Clause) string {
 	case HTML:
 		return "changes the HTML token structure around the sink"
 	}
-	return "breaks " + cl.String()
+	var parts []string
+	for bit := Clause(1); bit <= HTML; bit <<= 1 {
+		if cl&bit != 0 {
+			parts = append(parts, explain(bit))
+		}
+	}
+	if len(parts) == 0 {
+		return "is clean"
+	}
+	return strings.Join(parts, " and ")
 }
 
 // Run is the C05 check.
@@ -466,18 +563,15 @@ func Run(c *core.Ctx) {
 		return
 	}
 	b := &bag{min: map[string]witness{}}
-	t0 := time.Now()
 	inProc(c, b)
-	fmt.Fprintln(os.Stderr, "inproc", time.Since(t0))
 	c.Set("raw_sanitiser_violations_before_reduction", b.raw)
+	c.Set("raw_violations_not_reduced(longer_than_bucket_minimum)", b.skips)
 	for _, s := range [][2]string{{"font-family", `"a", serif`}, {"background-image", `url("/a;b")`}, {"color", "red;}"}, {"color:red;x", "a"}} {
 		o, _ := emitSafehtml(s[0], s[1])
 		cl, _ := verdictSanitiser(s[0], s[1])
 		c.Sample(map[string]any{"property": s[0], "value": s[1], "emitted": o, "verdict": map[bool]string{true: "held", false: cl.String()}[cl == 0]})
 	}
-	t0 = time.Now()
 	rendered(c, b)
-	fmt.Fprintln(os.Stderr, "rendered", time.Since(t0))
 	report(c, b)
 }
 
